@@ -3016,6 +3016,30 @@ fn unify(ty_1: &Type, ty_2: &Type) -> Option<Type> {
     }
 }
 
+/// Verification hook: expose `unify` to `verif_hooks`.
+#[cfg(wilfred_garden_verif)]
+pub(crate) fn verif_unify(ty_1: &Type, ty_2: &Type) -> Option<Type> {
+    unify(ty_1, ty_2)
+}
+
+/// Verification hook: expose `unify_all` to `verif_hooks`. On
+/// failure, returns the index of the first type that did not unify.
+#[cfg(wilfred_garden_verif)]
+pub(crate) fn verif_unify_all(tys: &[Type]) -> Result<Type, usize> {
+    let path = std::path::PathBuf::from("/verif_input.gdn");
+    let (_vfs, vfs_path) = crate::parser::vfs::Vfs::singleton(path, String::new());
+    let with_pos: Vec<(Type, Position)> = tys
+        .iter()
+        .enumerate()
+        .map(|(i, ty)| {
+            let mut pos = Position::todo(&vfs_path);
+            pos.start_offset = i;
+            (ty.clone(), pos)
+        })
+        .collect();
+    unify_all(&with_pos).map_err(|(_, _, pos)| pos.start_offset)
+}
+
 fn check_match_exhaustive(
     env: &Env,
     scrutinee_pos: &Position,
